@@ -28,6 +28,11 @@ type liveFenceSwitches struct {
 	obj  geojson.Object
 	cmd  string
 	roam roamSwitches
+	// area given as `GET key id`: the object it named when the command was
+	// parsed (before BUFFER and CLIPBY), and the position of the GET token
+	// among the arguments that follow the command word
+	getObj geojson.Object
+	getAt  int
 }
 
 type roamSwitches struct {
@@ -213,6 +218,7 @@ func (s *Server) cmdSearchArgs(
 	if fromFenceCmd {
 		t.fence = true
 	}
+	nargs := len(vs)
 	vs, t, err = s.parseSearchScanBaseTokens(cmd, t, vs)
 	if err != nil {
 		return
@@ -430,6 +436,8 @@ func (s *Server) cmdSearchArgs(
 			return
 		}
 		lfs.obj = o.Geo()
+		lfs.getObj = o.Geo()
+		lfs.getAt = nargs - len(vs) - 3
 	case "roam":
 		lfs.roam.on = true
 		if vs, lfs.roam.key, ok = tokenval(vs); !ok || lfs.roam.key == "" {
